@@ -38,7 +38,7 @@ def reg_step(m, rnd, kind=None):
     kind = kind or gen.wchoice(rnd, [("fn", 3), ("prefix", 2), ("infix", 4), ("postfix", 2)])
     b = m.beh()
     if kind == "fn":
-        name = rnd.choice(["newfn", "other", "min", "max", "f", "sum"])
+        name = rnd.choice(["newfn", "other", "min", "max", "f", "sum", "costarring", "liquid", "declinate", "macallums", "altarage", "zinke", "tierAa", "tierBB"])
         m.gfuncs[name] = b
         return {"op": "reg_fn", "name": name, "beh": b.to_json()}
     if kind == "prefix":
@@ -107,7 +107,7 @@ def use_program(m, rnd):
         op = rnd.choice(sorted({o for (kk, o) in m.handlers if kk == "postfix"} or {"++"}))
         return ["post", n(3), op]
     if k == "fn":
-        name = rnd.choice(sorted(set(m.gfuncs) | {"min", "f", "nosuchfn"}))
+        name = rnd.choice(sorted(set(m.gfuncs) | {"min", "f", "nosuchfn", "costarring", "liquid", "macallums", "zinke", "tierAa"}))
         return ["fn", name, [n(3), n(1)]]
     if k == "builtin":
         return rnd.choice([["bin", "+", n(1), n(2)], ["un", "-", n(3)], ["post", n(2), "++"], ["bin", "in", n(3), ["list", [n(3)]]], ["fn", "min", [n(3), n(4)]], ["fn", "max", [n(3), n(4)]],
